@@ -410,6 +410,9 @@ class CLui(RiscvcInstruction):
     syntax = Syntax(["c", ".", "lui", " ", rd, ",", " ", imm])
 
     def encode(self):
+        # The operand is the 20 bit value of lui, with bits 5 to 19 equal
+        if sign_extend(self.imm, 6) & 0xFFFFF != self.imm:
+            raise ValueError(f"Cannot encode {self.imm} in c.lui")
         imm6 = self.imm & 0x3F
         tokens = self.get_tokens()
         tokens[0].op = 0b01
@@ -627,14 +630,17 @@ def pattern_consti32(context, tree):
 
 
 @rvcisa.pattern(
-    "reg", "CONSTI32", size=3, condition=lambda t: t.value < 0x20000
+    "reg",
+    "CONSTI32",
+    size=3,
+    condition=lambda t: t.value in range(-0x20800, 0x1F800),
 )
 def pattern_consti32_2(context, tree):
     d = context.new_reg(RiscvRegister)
     c0 = tree.value
     if (c0 & 0x800) != 0:
         c0 += 0x1000
-    context.emit(CLui(d, c0 >> 12))
+    context.emit(CLui(d, (c0 >> 12) & 0xFFFFF))
     context.emit(Addi(d, d, sign_extend(c0, 12)))
     return d
 
